@@ -112,6 +112,20 @@ MUTANTS = [
     ("c19-peek-error-index-plus-two", ["C19"], PR, "        self.position_of_index(cmp::min(self.slice.len(), self.index + 1))", "        self.position_of_index(cmp::min(self.slice.len(), self.index + 2))", "survive"),
     ("c19-location-swapped", ["C19"], PE, "                location: Some(Location { line, column }),", "                location: Some(Location { line: column, column: line }),", "kill"),
     ("c19-expect-ident-eof-as-syntax-again", ["C19"], PM, "                None => return Err(self.error(ErrorCode::EofWhileParsingValue)),\n            }\n        }\n\n        Ok(())", "                None => return Err(self.error(ErrorCode::ExpectedSomeIdent)),\n            }\n        }\n\n        Ok(())", "kill"),
+    # ---- C04 / C14 / C18
+    ("c04-serialize-u32-via-i32", ["C04", "C14"], SS, "    fn serialize_u32(self, v: u32) -> Result<Value> {\n        self.serialize_i64(i64::from(v))", "    fn serialize_u32(self, v: u32) -> Result<Value> {\n        self.serialize_i64(i64::from(v as i32))", "kill"),
+    ("c04-some-without-wrapping-list", ["C04", "C14"], SS, "        Ok(Value::cons(value.serialize(self)?, Value::Null))", "        value.serialize(self)", "kill"),
+    ("c04-option-accepts-nil", ["C18"], SD, "            Value::Null => visitor.visit_none(),\n            Value::Cons(cons) if cons.cdr().is_null() => {", "            Value::Null | Value::Nil => visitor.visit_none(),\n            Value::Cons(cons) if cons.cdr().is_null() => {", "survive"),
+    ("c04-map-access-skips-entry", ["C04", "C18"], SD, "        self.cursor = match cell.cdr() {\n            Value::Cons(cell) => Some(cell),\n            Value::Null => None,", "        self.cursor = match cell.cdr() {\n            Value::Cons(cell) => cell.cdr().as_cons().or(Some(cell)).filter(|_| false).or(Some(cell)),\n            Value::Null => None,", "survive"),
+    ("c04-f32-through-i64", ["C04"], SS, "    fn serialize_f32(self, v: f32) -> Result<Value> {\n        self.serialize_f64(f64::from(v))", "    fn serialize_f32(self, v: f32) -> Result<Value> {\n        self.serialize_f64(f64::from(v) as f32 as f64 + 0.0 * f64::from(v.fract()))", "survive"),
+    ("c14-unit-variant-as-string", ["C14", "C04"], SS, "        Ok(Value::symbol(variant))\n    }\n\n    fn serialize_newtype_struct", "        Ok(Value::string(variant))\n    }\n\n    fn serialize_newtype_struct", "kill"),
+    ("c14-struct-fields-as-strings", ["C14"], SS, "impl ser::SerializeStruct for SerializeStruct {\n    type Ok = Value;\n    type Error = Error;\n\n    fn serialize_field<V>(&mut self, field: &'static str, value: &V) -> Result<()>\n    where\n        V: ser::Serialize + ?Sized,\n    {\n        self.fields\n            .push(Value::cons(Value::symbol(field), to_value(value)?));", "impl ser::SerializeStruct for SerializeStruct {\n    type Ok = Value;\n    type Error = Error;\n\n    fn serialize_field<V>(&mut self, field: &'static str, value: &V) -> Result<()>\n    where\n        V: ser::Serialize + ?Sized,\n    {\n        self.fields\n            .push(Value::cons(Value::string(field), to_value(value)?));", "kill"),
+    ("c14-tuple-as-list", ["C14"], SS, "    fn end(self) -> Result<Value> {\n        Ok(Value::Vector(self.items.into()))", "    fn end(self) -> Result<Value> {\n        Ok(Value::list(self.items))", "kill"),
+    ("c14-list-access-accepts-improper", ["C14", "C18"], SD, "                    Value::Null => self.cursor = None,\n                    _ => return Err(invalid_value(cell.cdr(), \"cons cell or end of list\")),", "                    _ => self.cursor = None,", "kill"),
+    ("c14-seq-rejects-vector", ["C14"], SD, "            Value::Null => visitor.visit_seq(ListAccess::empty()),\n            Value::Vector(elements) => visitor.visit_seq(VecAccess::new(elements)),\n            Value::Cons(cell) => visitor.visit_seq(ListAccess::new(cell)),\n            _ => Err(invalid_value(self.input, \"list\")),\n        }\n    }\n\n    fn deserialize_tuple<V>", "            Value::Null => visitor.visit_seq(ListAccess::empty()),\n            Value::Cons(cell) => visitor.visit_seq(ListAccess::new(cell)),\n            _ => Err(invalid_value(self.input, \"list\")),\n        }\n    }\n\n    fn deserialize_tuple<V>", "kill"),
+    ("c18-expect-reachable-in-map-access", ["C18"], SD, "            None => Ok(None),\n            Some(cell) => cell\n                .car()\n                .as_cons()\n                .ok_or_else(|| invalid_value(cell.car(), \"cons cell\"))", "            None => Ok(None),\n            Some(cell) => Ok(cell\n                .car()\n                .as_cons()\n                .expect(\"alist entry\"))", "kill"),
+    ("c18-io-category-for-data-error", ["C18", "C14"], SD, "fn invalid_value(value: &Value, expected: &'static str) -> Error {", "fn invalid_value(value: &Value, expected: &'static str) -> Error {\n    if let Value::Keyword(_) = value {\n        return Error::from(std::io::Error::new(std::io::ErrorKind::Other, expected));\n    }", "kill"),
+    ("c18-number-negint-as-u64", ["C18", "C04"], SD, "        fn visit_i64(self, n: i64) -> Result<V::Value> {\n            self.visitor.visit_i64(n)", "        fn visit_i64(self, n: i64) -> Result<V::Value> {\n            self.visitor.visit_u64(n as u64)", "kill"),
 ]
 
 
